@@ -735,6 +735,9 @@ def _shrink_req(tree, case, sig):
     return dict(case, req=small)
 
 
+_twin_no = itertools.count()
+
+
 def _latest_stream(ctx, tree):
     from pydl.pydlspec2d.spec1d import latest_mjd
     rng = ctx.rng
@@ -754,6 +757,34 @@ def _latest_stream(ctx, tree):
         want = [max(mm for q, mm in tree.keys if q == p) for p in c]
         if impl != want:
             ctx.violate('latest_mjd:not-the-largest', 'latest_mjd(%s) = %s, files on disk say %s' % (c, impl, want), case)
+    # history: the answer belongs to the tree that is asked NOW.  A second tree with the same plate numbers observed on other
+    # nights (latest_mjd reads file names only), the first tree again, then a newer file appearing in the second tree.
+    twin = os.path.join(ctx.tmpdir(), 'twin-%d' % next(_twin_no))
+    os.makedirs(twin)
+    tk = []
+    for p in plates:
+        lm = max(mm for q, mm in tree.keys if q == p)
+        for mm in {lm + rng.choice([-7, 3, 40]), lm - rng.randint(10, 400)}:
+            tk.append((p, mm))
+            open(os.path.join(twin, 'spPlate-%04d-%05d.fits' % (p, mm)), 'w').close()
+    steps = [('twin', twin, tk), ('first', tree.top, list(tree.keys))]
+    p0 = plates[0]
+    newer = max(mm for q, mm in tk if q == p0) + 5
+    steps.append(('twin+newer', twin, tk + [(p0, newer)]))
+    for name, top, keys in steps:
+        if name == 'twin+newer':
+            open(os.path.join(twin, 'spPlate-%04d-%05d.fits' % (p0, newer)), 'w').close()
+        case = {'stream': 'latest', 'tree': tree.spec, 'plates': plates, 'history': name, 'files': [list(k) for k in keys]}
+        try:
+            impl = [int(x) for x in latest_mjd(np.array(plates, dtype='i4'), path=top)]
+        except Exception as e:
+            impl = {'err': core.exc_kind(e)}
+        ctx.seen(case)
+        ctx.count('latest_mjd:history:' + name)
+        want = [max(mm for q, mm in keys if q == p) for p in plates]
+        if impl != want:
+            ctx.violate('latest_mjd:history', 'after asking other trees, latest_mjd(%s, path=<%s>) = %s, files there say %s'
+                        % (plates, name, impl, want), case)
 
 
 def append_oracle(a1, a2, ps):
